@@ -413,3 +413,49 @@ pub broadcast proof fn lemma_world_append(w0: World, w: World, off: int, e: Seq<
         }
     }
 }
+pub open spec fn is_param_kind(k: u16) -> bool { 30000 <= k <= 39999 }
+pub open spec fn d_name() -> Seq<u8> { seq![0x64u8] }
+// an atc key: author(32) + letter + pad182(value) + rev_time(8) + id(32) = 255 bytes
+pub proof fn lemma_atc_key_len(a: Seq<u8>, l: u8, v: Seq<u8>, t: u64, id: Seq<u8>)
+    requires a.len() == 32, id.len() == 32
+    ensures k_atc(a, l, v, t, id).len() == 255,
+        k_atc(a, l, v, t, id).subrange(215, 255) =~= rev_time(t) + id,
+        k_atc(a, l, v, t, id).subrange(0, 215) =~= a + seq![l] + pad182(v),
+{
+}
+// removing the (kind-filtered) events of the <= until sub-range of a d-address leaves every other entry of that
+// address range alone
+pub proof fn lemma_atc_survives(w: World, d: Db, a: Seq<u8>, letter: u8, v: Seq<u8>, until: u64, only: Option<u16>, k: Seq<u8>)
+    requires world_inv(w), db_ok(d, w), a.len() == 32,
+        in_range(db_tab(d, T_ATC()), k_atc(a, letter, v, u64::MAX, zeros32()), k_atc(a, letter, v, 0, ffs32()), k),
+        !in_range(db_tab(d, T_ATC()), k_atc(a, letter, v, until, zeros32()), k_atc(a, letter, v, 0, ffs32()), k)
+    ensures !removed_by_range(db_tab(d, T_ATC()), k_atc(a, letter, v, until, zeros32()), k_atc(a, letter, v, 0, ffs32()), w, only, T_ATC(), k)
+{
+    let tab = db_tab(d, T_ATC());
+    let lo = k_atc(a, letter, v, until, zeros32());
+    let lo_full = k_atc(a, letter, v, u64::MAX, zeros32());
+    let hi = k_atc(a, letter, v, 0, ffs32());
+    if removed_by_range(tab, lo, hi, w, only, T_ATC(), k) {
+        let k0 = choose|k0: Seq<u8>| #[trigger] in_range(tab, lo, hi, k0) && scan_selects(w, only, tab[k0]) && is_event_key(w.events[tab[k0] as int], T_ATC(), k);
+        assert(d.t[T_ATC()].contains_key(k0));
+        let e0 = w.events[tab[k0] as int];
+        assert(is_event_key(e0, T_ATC(), k0));
+        assert(wf_event(e0));
+        // both k and k0 are atc keys of e0: same author, time and id; both lie in the address range: same 215-byte prefix
+        let t1 = lemma_tag_key_witness(e0, T_ATC(), k, t_count(ev_tags(e0)));
+        let t2 = lemma_tag_key_witness(e0, T_ATC(), k0, t_count(ev_tags(e0)));
+        let tb = ev_tags(e0);
+        lemma_atc_key_len(ev_pubkey(e0), s_bytes(tb, t1, 0)[0], s_bytes(tb, t1, 1), ev_created_at(e0), ev_id(e0));
+        lemma_atc_key_len(ev_pubkey(e0), s_bytes(tb, t2, 0)[0], s_bytes(tb, t2, 1), ev_created_at(e0), ev_id(e0));
+        lemma_atc_key_len(a, letter, v, until, zeros32());
+        lemma_atc_key_len(a, letter, v, u64::MAX, zeros32());
+        lemma_atc_key_len(a, letter, v, 0, ffs32());
+        assert(lo.subrange(0, 215) == hi.subrange(0, 215));
+        assert(lo_full.subrange(0, 215) == hi.subrange(0, 215));
+        lemma_prefix_squeeze(lo, hi, k0, 215);
+        lemma_prefix_squeeze(lo_full, hi, k, 215);
+        assert(k =~= k.subrange(0, 215) + k.subrange(215, 255));
+        assert(k0 =~= k0.subrange(0, 215) + k0.subrange(215, 255));
+        assert(k == k0);
+    }
+}
